@@ -334,8 +334,8 @@ sts_atmost_aux(Source *source, Sink *sink, ByteBuffer *b, const size_t n)
 {
     ByteBuffer buffer;
     memcpy(&buffer, b, sizeof(*b));
-    if (buffer.size > n) {
-        buffer.size = n;
+    if (byte_buffer_rest(&buffer) > n) {
+        buffer.used = buffer.offset + n;
     }
     return sts_some_aux(source, sink, &buffer);
 }
